@@ -20,10 +20,10 @@ func TestReplay(t *testing.T) { prop.Replay(t, nil) }
 func genA() *rapid.Generator[Case] {
 	return rapid.Custom(func(t *rapid.T) Case {
 		a := &CaseA{Ctor: rapid.SampledFrom([]string{"new", "zero", "zero", "nil"}).Draw(t, "ctor")}
-		n := rapid.IntRange(1, 8).Draw(t, "n")
+		n := rapid.IntRange(1, 10).Draw(t, "n")
 		next := 1
 		for i := 0; i < n; i++ {
-			op := OpA{K: rapid.SampledFrom([]string{"adderr", "addlist", "addlist", "errors"}).Draw(t, "op")}
+			op := OpA{K: rapid.SampledFrom([]string{"adderr", "adderr", "addlist", "addlist", "addlist", "errors", "merge", "reuse"}).Draw(t, "op"), On: rapid.IntRange(0, 1).Draw(t, "on")}
 			switch op.K {
 			case "adderr":
 				if rapid.IntRange(0, 3).Draw(t, "nil") == 0 {
